@@ -72,6 +72,8 @@ namespace {
         int version_at_grant = -1;
         int rw_before = 0;          // number of read-write requests with a smaller index
         bool new_wave = false;      // requested only after all earlier accesses have been released
+        int move_kind = 0;          // the mutex object is moved before this request is taken: 1 move-constructed,
+                                    // 2-4 move-assigned onto a mutex that was fresh / last gave a read / a read-write
     };
     std::vector<Req> R;
     int g_rw_active = -1;    // index of the read-write access currently held (-1 none)
@@ -309,6 +311,28 @@ namespace {
                 for (int i = a; i < b; i++)
                 {
                     Req& r = R[(size_t) i];
+                    if (r.move_kind == 1)
+                    {
+                        // the mutex is an ordinary movable value: the moved-to object continues the request order
+                        auto moved = std::make_unique<Mutex>(std::move(*mtx));
+                        mtx = std::move(moved);
+                        probe("mutex_move_constructed");
+                    }
+                    else if (r.move_kind >= 2)
+                    {
+                        std::unique_ptr<Mutex> target;
+                        if constexpr (IsVoid)
+                            target = std::make_unique<Mutex>();
+                        else
+                            target = std::make_unique<Mutex>(Val(0));
+                        // the target's own history (on its own value): accesses that are granted and released
+                        // at once (senders dropped unstarted run detached)
+                        if (r.move_kind == 3) { (void) target->readwrite(); (void) target->read(); }
+                        if (r.move_kind == 4) { (void) target->read(); (void) target->readwrite(); }
+                        *target = std::move(*mtx);
+                        mtx = std::move(target);
+                        probe("mutex_move_assigned");
+                    }
                     if (r.kind == 1)
                     {
                         auto snd = std::make_shared<std::optional<decltype(mtx->readwrite())>>(mtx->readwrite());
@@ -454,6 +478,7 @@ namespace {
                 op.v[5] = (int64_t) r.below((uint64_t) nthreads);
                 op.v[6] = r.range(0, 4);
                 op.v[7] = r.chance(1, 4) ? 1 : 0;    // starts a new wave
+                if (r.chance(1, 8)) op.v[7] |= (int64_t) r.range(1, 4) << 1;    // the mutex is moved first
                 p.push_back(op);
             }
             ctx.program = p;
@@ -472,6 +497,8 @@ namespace {
             q.release_delay = (int) (op.v[6] & 7);
             q.expected_grants = q.action == ACT_COPY_SENDER ? 2 : 1;
             q.new_wave = (op.v[7] & 1) != 0;
+            q.move_kind = (int) ((op.v[7] >> 1) & 7);
+            if (q.move_kind > 4) q.move_kind = 0;
             q.rw_before = rw_seen;
             // a dropped read-write access does not modify the value
             if (q.kind == 1 && q.action != ACT_DROP) rw_seen++;
